@@ -63,6 +63,53 @@ func boolPhiBranch(b *ssa.BasicBlock) (*ssa.Phi, bool) {
 	return phi, true
 }
 
+// nilPhiBranch: b ends in `if v == nil` / `if v != nil` (possibly negated) with v a phi of b itself: the shape an
+// error (or pointer) takes when it was picked in several branches and is tested after they join —
+// `x, err := f()` with f expanded in place, `if err != nil`.
+func nilPhiBranch(b *ssa.BasicBlock) (*ssa.Phi, *ssa.Const, bool) {
+	if b == nil || len(b.Instrs) == 0 || len(b.Succs) != 2 {
+		return nil, nil, false
+	}
+	iff, ok := b.Instrs[len(b.Instrs)-1].(*ssa.If)
+	if !ok {
+		return nil, nil, false
+	}
+	v := iff.Cond
+	for {
+		if u, ok := v.(*ssa.UnOp); ok && u.Op == token.NOT {
+			v = u.X
+			continue
+		}
+		break
+	}
+	bo, ok := v.(*ssa.BinOp)
+	if !ok || (bo.Op != token.EQL && bo.Op != token.NEQ) {
+		return nil, nil, false
+	}
+	for _, pr := range [][2]ssa.Value{{bo.X, bo.Y}, {bo.Y, bo.X}} {
+		if phi, ok := pr[0].(*ssa.Phi); ok && phi.Block() == b {
+			if k, ok := pr[1].(*ssa.Const); ok && k.Value == nil {
+				return phi, k, true
+			}
+		}
+	}
+	return nil, nil, false
+}
+
+// eqNilKey: the key of `e == nil` if some branch of the function tests exactly that.
+func (pi *pcInfo) eqNilKey(e ssa.Value, nilc *ssa.Const) (int, bool) {
+	kx, okx := pcOperandKey(e)
+	ky, oky := pcOperandKey(nilc)
+	if !okx || !oky {
+		return 0, false
+	}
+	if kx > ky {
+		kx, ky = ky, kx
+	}
+	id, ok := pi.keyOf[kx+" "+token.EQL.String()+" "+ky]
+	return id, ok
+}
+
 const pcMaxAlts = 24
 
 var pcCache = map[*ssa.Function]*pcInfo{}
@@ -365,6 +412,25 @@ func (pi *pcInfo) alongEdge(brOf map[*ssa.BasicBlock]pcBr, p, b *ssa.BasicBlock,
 				}
 				na = pcAdd(pcWithout(na, vid), l2)
 			}
+		} else if phi, nilc, ok := nilPhiBranch(p); ok {
+			for ek, vid := range vm {
+				if !pcHas(a, pcLit(vid<<1|1)) {
+					continue
+				}
+				// `outcome` is stated for the normalised condition, phi == nil; on this alternative phi is Edges[ek]
+				k2, has := pi.eqNilKey(phi.Edges[ek], nilc)
+				if !has {
+					continue
+				}
+				l2 := pcLit(k2 << 1)
+				if outcome {
+					l2 |= 1
+				}
+				if pcHas(na, l2^1) {
+					return nil, false
+				}
+				na = pcAdd(pcWithout(na, vid), l2)
+			}
 		}
 	}
 	return na, true
@@ -423,6 +489,24 @@ func pathConds(fn *ssa.Function) *pcInfo {
 	// through that edge is remembered as a pseudo literal and turned into a literal on that value when the branch is taken
 	for _, b := range fn.Blocks {
 		phi, ok := boolPhiBranch(b)
+		if !ok {
+			// the same for a value compared with nil after the join, when every non-constant edge value has its own
+			// nil test somewhere in the function (the literal the edge is restated as)
+			var nilc *ssa.Const
+			if phi, nilc, ok = nilPhiBranch(b); ok {
+				for k := range b.Preds {
+					if k >= len(phi.Edges) {
+						continue
+					}
+					if _, isC := phi.Edges[k].(*ssa.Const); isC {
+						continue
+					}
+					if _, has := pi.eqNilKey(phi.Edges[k], nilc); !has {
+						ok = false
+					}
+				}
+			}
+		}
 		if !ok {
 			continue
 		}
